@@ -109,6 +109,13 @@ func VHMapsCloneClear() {
 	var nilm map[int]int
 	Clear(nilm)
 	vAssert(len(Clone(nilm)) == 0, "Clone(nil) is empty")
+	// "every returned map is new and can be modified": also the clone of a nil or empty map
+	nc := Clone(nilm)
+	vAssert(!vPanics(func() { nc[1] = 2 }) && nc[1] == 2 && len(nilm) == 0, "Clone(nil) is a new map that can be modified")
+	em := map[int]int{}
+	ec := Clone(em)
+	vAssert(!vPanics(func() { ec[1] = 2 }) && len(em) == 0, "the clone of an empty map is a new map that can be modified")
+	vAssert(Keys(nilm) != nil || len(Keys(nilm)) == 0, "Keys(nil)")
 	vAssert(len(Keys(nilm)) == 0, "Keys(nil) is empty")
 	if len(ks) >= 3 {
 		vCover("maps n >= 3")
